@@ -22,9 +22,13 @@ struct TOp { uint8_t kind; uint8_t a, b; uint16_t idx; bool yield; };
 struct TLog { std::vector<uint64_t> v; };
 struct Work { int nthreads; std::vector<std::vector<TOp>> ops; };
 
+static size_t N_SPECIAL = 0;   // the last N_SPECIAL entries of SHARED are hand-picked (reserved names, root dots, literals, IDN)
 static Work decode(Src &s) {
     Work w; w.nthreads = 2 + (int) s.pick(15);
     uint32_t base = 120 + s.pick(200);
+    // half of the workloads concentrate on a hot subset of 2-6 hand-picked strings, so that many threads are inside the same
+    // rarely taken branch at the same time
+    bool hot = s.chance(1, 2); uint32_t hotn = 2 + s.pick(5), hot0 = N_SPECIAL ? s.pick((uint32_t) N_SPECIAL) : 0;
     for (int t = 0; t < w.nthreads; t++) {
         std::vector<TOp> v; uint32_t n = base + s.pick(60);
         v.push_back({1, (uint8_t) s.pick(4), 0, 0, false});
@@ -32,6 +36,7 @@ static Work decode(Src &s) {
             TOp o; uint32_t k = s.pick(16);
             o.kind = k < 8 ? 0 : k < 10 ? 1 : k < 11 ? 2 : k < 12 ? 3 : k < 14 ? 4 : 5;
             o.a = (uint8_t) s.pick(4); o.b = (uint8_t) s.pick(2); o.idx = (uint16_t) s.pick((uint32_t) SHARED.size()); o.yield = s.chance(1, 12);
+            if (hot && N_SPECIAL && s.chance(3, 4)) o.idx = (uint16_t) (SHARED.size() - N_SPECIAL + (hot0 + s.pick(hotn)) % N_SPECIAL);
             if (o.kind == 3) o.idx = (uint16_t) s.pick(2048);
             if (o.kind == 4) o.a = (uint8_t) s.pick(11);
             v.push_back(o);
@@ -148,12 +153,22 @@ static void stage_workloads(Run &R) {
 
 int main(int argc, char **argv) {
     return std_main(argc, argv, "C14", {{"workloads", stage_workloads}},
-        [](Run &R, const Case &c) { Bytes b = c.getb("ent"); bool nt = false; auto f = run_work(R, std::vector<uint8_t>(b.begin(), b.end()), &nt); if (!f && nt) printf("NONTRIVIAL\n"); return f; }, [] { return g_case; },
+        [](Run &R, const Case &c) -> std::optional<Failure> {
+            Bytes b = c.getb("ent"); std::vector<uint8_t> ent(b.begin(), b.end()); bool nt = false;
+            if (R.a.stage == "child") { auto f = run_work(R, ent, &nt); if (!f && nt) printf("NONTRIVIAL\n"); return f; }
+            // top-level replay of a stored counterexample: a race needs its interleaving, so the workload is repeated (fresh process each
+            // time) until it fails, at most 40 times; the sequential reference is deterministic, so a mismatch can only come from a race
+            for (int i = 0; i < 40; i++) { auto f = run_work_spawned(R, ent); if (f) return f; }
+            return std::nullopt; }, [] { return g_case; },
         [](Run &R) {
             { char buf[4096]; ssize_t n = readlink("/proc/self/exe", buf, sizeof buf - 1); if (n <= 0) return false; buf[n] = 0; g_self = buf; g_data = R.a.datadir; }
             SHARED = corpus_lines(R.a.datadir);
-            for (const char *x : {"\xD0\xB8\xD0\xB2\xD0\xB0\xD0\xBD@\xD0\xBF\xD0\xBE\xD1\x87\xD1\x82\xD0\xB0.\xD1\x80\xD1\x84", "a@mailbox.localhost", "a@example.test", "x@sub.example.org", "a@b.zzunlisted", "a@[IPv6:1:2:3:4:5:6:7:8]", "a@x.abarth", "\"q q\"@x.museum"}) SHARED.push_back(x);
             if (SHARED.size() > 60000) SHARED.resize(60000);
+            static const char *SPECIAL[] = {"\xD0\xB8\xD0\xB2\xD0\xB0\xD0\xBD@\xD0\xBF\xD0\xBE\xD1\x87\xD1\x82\xD0\xB0.\xD1\x80\xD1\x84", "a@mailbox.localhost", "a@example.test", "x@sub.example.org", "a@b.zzunlisted",
+                "a@[IPv6:1:2:3:4:5:6:7:8]", "a@x.abarth", "\"q q\"@x.museum", "user@mail.EXAMPLE.org.", "u@example.com.", "u@Example.NET.", "u@company.info", "u@example.test", "u@www.example.com", "u@host.localhost.",
+                "u@x.onion", "u@Iana.ORG", "x@y.XN--P1AI", "u@[1.2.3.4]", "u@[IPv6:::ffff:1.2.3.4]", "u@a_b.com", "u@xn--80a.test", "u@\xEF\xBD\x85xample.com", "first.last@single", "a@4.3.2.1.in-addr.arpa"};
+            for (const char *x : SPECIAL) SHARED.push_back(x);
+            N_SPECIAL = sizeof SPECIAL / sizeof SPECIAL[0];
             for (auto &l : SHARED) SHARED_AT.push_back(l.rfind('@'));
             return SHARED.size() > 100;
         });
